@@ -53,13 +53,17 @@ stable* — but `pdqsort` begins with `if length <= 12 { insertionSort(data, a, 
 
 ## uniq
 
-Go keeps the first occurrence of each class of equal elements; equality is Go's `==` on the
-interface values for hashable kinds (through a `map[any]bool`) and `==`/`reflect.DeepEqual`
-otherwise — in every case "same dynamic type and same contents". The line-protocol encoding
-`GoVal.enc` spells exactly the dynamic type and the contents, with the entries of a map in the order
-the value holds them; `MapOrder.canonEnc` is the encoding with every map in the codec's canonical
-order, so two model values are equal for `uniq` iff their canonical encodings are equal (`1` and
-`1.0`, `int8 1` and `int 1` are different; two maps with the same entries are the same).
+Go keeps the first occurrence of each class of equal elements. Equality is Go's `==` on the interface
+values for hashable kinds (through a `map[any]bool`): same dynamic type and same contents. For the other
+kinds it is `eqItems` (after `fixes/nested-drops-resolved`): two arrays or slices are equal when they have
+equal elements, two maps when they have the same key type and equal values under the same keys — whatever the
+Go type of the container, with a drop inside standing for its value, as `values.Equal` has it — and anything
+else (scalars inside them, structs) by `==`/`reflect.DeepEqual`, i.e. same dynamic type and same contents.
+The line-protocol encoding `GoVal.enc` spells exactly the dynamic type and the contents, with the entries of a
+map in the order the value holds them; `MapOrder.canonEnc` is the encoding with every map in the codec's
+canonical order; `uniqForm` forgets the container types and resolves the drops. So two model values are equal
+for `uniq` iff the canonical encodings of their `uniqForm`s are equal (`1` and `1.0`, `int8 1` and `int 1` are
+different; `[]int{1}` and `[]any{1}` are the same; two maps with the same entries are the same).
 Pointer identity is not in the model: an element containing a non-nil pointer is `unmodelled`.
 -/
 
@@ -123,12 +127,12 @@ def joinBytes (sep : Bytes) : List Bytes → Bytes
   | [a] => a
   | a :: b :: rest => a ++ sep ++ joinBytes sep (b :: rest)
 
-/-- `for _, v := range a { if v != nil { ss = append(ss, fmt.Sprint(v)) } }` -/
+/-- `for _, v := range a { if v != nil { ss = append(ss, fmt.Sprint(values.ResolveDrops(v))) } }` -/
 def sprintNonNil : List GoVal → R (List Bytes)
   | [] => .ok []
   | x :: xs =>
     if x.isNil then sprintNonNil xs
-    else (sprint x).bind fun b => (sprintNonNil xs).bind fun bs => .ok (b :: bs)
+    else (sprintR x).bind fun b => (sprintNonNil xs).bind fun bs => .ok (b :: bs)
 
 def joinF (xs : List GoVal) (sep : Bytes) : R GoVal :=
   (sprintNonNil xs).bind fun ss => .ok (.str (joinBytes sep ss))
@@ -184,10 +188,39 @@ def uniqOn {α κ : Type} [BEq κ] (key : α → κ) : List κ → List α → L
     if seen.contains (key x) then uniqOn key seen xs
     else x :: uniqOn key (key x :: seen) xs
 
-/-- Go equality of two elements (see the header): same dynamic type, same contents -/
-def same (a b : GoVal) : Bool := MapOrder.canonEnc a == MapOrder.canonEnc b
+mutual
+/-- what `eqItems` compares (`fixes/nested-drops-resolved`): arrays and maps by what they hold, whatever the
+    Go type that holds it — a typed slice or a fixed array is the generic slice of its elements, a typed map
+    the generic map with the same key type, a drop in them is its value, at every depth — and everything else
+    (scalars, structs, the items of a `yaml.MapSlice`) as it is. -/
+def uniqForm : GoVal → GoVal
+  | .drop v => uniqForm v
+  | .ptr (.drop v) => uniqForm v
+  | .slice _ xs => .slice .any (uniqFormList xs)
+  | .array _ xs => .slice .any (uniqFormList xs)
+  | .bytes s => .slice .any (s.map fun b => .int .u8 b.toNat)     -- `[]byte` is `[]uint8`
+  | .mapSlice kvs => .slice .any (kvs.map fun kv => GoVal.struct [([], kv.1), ([], kv.2)])   -- a slice of `MapItem` structs
+  | .map k _ kvs => .map k .any (uniqFormVals kvs)
+  | .keyedMap fs => .map .str .any (uniqFormFields fs)            -- a defined `map[string]any`
+  | v => v
+def uniqFormList : List GoVal → List GoVal
+  | [] => []
+  | x :: xs => uniqForm x :: uniqFormList xs
+def uniqFormVals : List (GoVal × GoVal) → List (GoVal × GoVal)
+  | [] => []
+  | (k, v) :: r => (k, uniqForm v) :: uniqFormVals r
+def uniqFormFields : List (Bytes × GoVal) → List (GoVal × GoVal)
+  | [] => []
+  | (k, v) :: r => (.str k, uniqForm v) :: uniqFormFields r
+end
 
-def uniqF (xs : List GoVal) : List GoVal := uniqOn MapOrder.canonEnc [] xs
+/-- the key of an element in `uniq`: same key, same element (see the header) -/
+def uniqKey (v : GoVal) : String := MapOrder.canonEnc (uniqForm v)
+
+/-- equality of two elements in `uniq` (see the header) -/
+def same (a b : GoVal) : Bool := uniqKey a == uniqKey b
+
+def uniqF (xs : List GoVal) : List GoVal := uniqOn uniqKey [] xs
 
 def uniq : List GoVal → R GoVal
   | [.slice .any xs] =>
@@ -319,11 +352,11 @@ def caseRes (o : Option Bytes) : R Bytes :=
   | some b => .ok b
   | none => .unmodelled "case table"
 
-/-- the sort text of an element: `""` for nil, else `strings.ToUpper(fmt.Sprint(v))` -/
+/-- the sort text of an element: `""` for nil, else `strings.ToUpper(fmt.Sprint(values.ResolveDrops(v)))` -/
 def natKey (v : GoVal) : R Bytes :=
   match v with
   | .nil => .ok []
-  | w => (sprint w).bind fun s => caseRes (StrF.upcase s)
+  | w => (sprintR w).bind fun s => caseRes (StrF.upcase s)
 
 /-- the sort text with a key: `strings.ToLower` of the string entry of a string-keyed map, else `""`
 (`reflect.ValueOf(m)`: no `ToLiquid` here — `Convert` already resolved the elements) -/
@@ -332,7 +365,7 @@ def natKeyBy (key : Bytes) (m : GoVal) : R Bytes :=
     | .map .str _ kvs => GoVal.mapFind kvs (.str key)
     | .keyedMap fs => GoVal.lookupFields fs key
     | _ => none
-  match entry.map GoVal.toLiquid with          -- the entry is resolved by `values.ToLiquid` (one level) before the string test
+  match entry.map GoVal.toLiquid with          -- the entry is resolved by `values.ToLiquid` before the string test
   | some (.str s) => caseRes (StrF.downcase s)
   | _ => .ok []
 
